@@ -304,6 +304,8 @@ class Converter:
         graph = self._current_fn
         self._current_fn = self._outer.pop()
         self._locals.pop()
+        for domain, version in graph.opset_imports.items():
+            self._current_fn.opset_imports.setdefault(domain, version)
         return graph
 
     def _current_scope(self) -> dict[str, LocalSymValue]:
